@@ -362,7 +362,11 @@ class CorrelatedExactGPyTorchModel(GPyTorchMultioutputExactModel):
 
         test_X = test_X[:, None, :]  # Prepare for batch inference
 
-        with torch.no_grad(), torch.autograd.set_detect_anomaly(True):
+        # Without training data the posterior is the prior (gpytorch cannot condition on nothing).
+        no_data = self.model.train_targets.shape[0] == 0
+        with torch.no_grad(), torch.autograd.set_detect_anomaly(True), gpytorch.settings.prior_mode(
+            no_data
+        ):
             res = self.model(test_X)
 
             means = res.mean.reshape(-1, self.output_dim).numpy(force=True)  # (N, output_dim), also for N=1
@@ -399,7 +403,11 @@ class IndependentExactGPyTorchModel(GPyTorchMultioutputExactModel):
         # Last column of X_t are sample space indices.
         test_X = self.to_tensor(test_X[..., : self.input_dim])
 
-        with torch.no_grad(), torch.autograd.set_detect_anomaly(True):
+        # Without training data the posterior is the prior (gpytorch cannot condition on nothing).
+        no_data = self.model.train_targets.shape[0] == 0
+        with torch.no_grad(), torch.autograd.set_detect_anomaly(True), gpytorch.settings.prior_mode(
+            no_data
+        ):
             res = self.model(test_X)
 
             means = res.mean.reshape(-1, self.output_dim).numpy(force=True)  # (N, output_dim), also for N=1
